@@ -196,6 +196,10 @@ class JSONStringFormatter(StringFormatter):
             printer.write(json.dumps(c)[1:-1])
 
         """
+        if len(c) == 1 and ord(c) > 0xFFFF:
+            # json.dumps would escape this as a UTF-16 surrogate pair, which JSON parsers recombine but the json5 parser
+            # reads back as two lone surrogates; characters outside the BMP need no escaping, so emit them as they are
+            return c
         # json.dumps will enclose the string in quotes, so remove them
         return json.dumps(c)[1:-1]
 
